@@ -93,6 +93,9 @@ def oracle_(iw, h, res, hl, names0, s0):
         if got[k] != want[k]:
             res.violation('view-stale-or-wrong:' + k, desc, '%s = %r' % (k, got[k]), '%r (computed from the current rotation)' % (want[k],))
             break
+    if n > 1 and len(hl) % 3 == 0:
+        from . import cu
+        cu.handed_out_rotations(res, c, 'view-stale-or-wrong:rotate', dict(desc, then='rotate(k) / rotate_pt(k) of h%d' % h))
 
 
 def cu_split(seq):
